@@ -35,6 +35,7 @@ Section TaffyRoot.
     flay_of_layout (Root.root_assemble (t_core st) avail o).
 
   Section Params.
+    Variable teq : T -> T -> bool.        (* equality of numbers inside the memo key *)
     Variable disp : TStyle T -> nat -> TKind.
     Variable pre : Block.BStyle T -> BlockAlg.BIn T -> BlockAlg.BIn T.
     Variable abs_child : @BlockAlg.AbsChild T.
@@ -42,7 +43,7 @@ Section TaffyRoot.
 
     Definition taffy_compute_root (fuel : nat) (t : tree) (avail : Size (AvailableSpace T)) : option tree :=
       let st := Engine.style_of _ _ _ _ t in
-      match taffy_memo disp pre abs_child leaf fuel t (taffy_root_input st avail) with
+      match taffy_memo teq disp pre abs_child leaf fuel t (taffy_root_input st avail) with
       | Some (o, t') => Some (Engine.set_lay _ _ _ _ t' (taffy_root_layout st avail o))
       | None => None
       end.
@@ -67,9 +68,9 @@ Section TaffyRoot.
       taffy_passes fuel (taffy_fresh t) avails.
   End Params.
 
-  (* ---- the real instance *)
+  (* ---- the real instance; `teq` = the equality of numbers inside the memo key *)
   Definition real_algo := taffy_algo taffy_dispatch BlockEngine.block_pre BlockAbs.abs_child_block taffy_leaf.
-  Definition real_memo := taffy_memo taffy_dispatch BlockEngine.block_pre BlockAbs.abs_child_block taffy_leaf.
-  Definition real_compute_root := taffy_compute_root taffy_dispatch BlockEngine.block_pre BlockAbs.abs_child_block taffy_leaf.
-  Definition real_layout_passes := taffy_layout_passes taffy_dispatch BlockEngine.block_pre BlockAbs.abs_child_block taffy_leaf.
+  Definition real_memo teq := taffy_memo teq taffy_dispatch BlockEngine.block_pre BlockAbs.abs_child_block taffy_leaf.
+  Definition real_compute_root teq := taffy_compute_root teq taffy_dispatch BlockEngine.block_pre BlockAbs.abs_child_block taffy_leaf.
+  Definition real_layout_passes teq := taffy_layout_passes teq taffy_dispatch BlockEngine.block_pre BlockAbs.abs_child_block taffy_leaf.
 End TaffyRoot.
